@@ -57,8 +57,83 @@ def main():
         d = native_equal(nat, got)
         if d:
             fails.append('constructor on %r differs from CPython: %s' % (text, d))
+    # the exact character-level models of str methods agree with CPython (symbolic characters pinned to concrete values)
+    import itertools
+    bm = I.bm
+
+    def pinned(c, s, tag):
+        cps = []
+        for j, ch in enumerate(s):
+            v = c.named_int('%s%d' % (tag, j))
+            c.assume(sym.i_cmp('==', v, ord(ch)))
+            cps.append(v)
+        return sym.s_from_chars(cps)
+
+    def low(v):
+        if isinstance(v, sym.PList):
+            return [low(x) for x in v.items]
+        if sym.is_str(v):
+            cps = sym.s_chars(v)
+            m = sym.ctx().model()
+            return ''.join(chr(m.eval(sym.Z(x), model_completion=True).as_long()) if not isinstance(x, int) else chr(x) for x in cps)
+        return v
+
+    cases = []
+    for hay in ('', 'a', 'ab', 'aab', 'abab'):
+        for pat in ('', 'a', 'ab', 'b'):
+            for name in ('find', 'rfind', 'count', 'startswith', 'endswith'):
+                for extra in ((), (1,), (3,), (5,), (-1,), (0, 2)):
+                    cases.append((hay, name, (pat,) + extra))
+    for hay in ('', 'a b', ' a\n', 'a\r\nb', '\x0ba\n\n', 'a  b c ', '\r\r'):
+        cases.append((hay, 'splitlines', ()))
+        cases.append((hay, 'splitlines', (True,)))
+        cases.append((hay, 'isspace', ()))
+        for mx in (-1, 0, 1):
+            cases.append((hay, 'split', (None, mx)))
+            cases.append((hay, 'rsplit', (None, mx)))
+    for hay, name, args in cases:
+        box = []
+
+        def t4(c):
+            recv = pinned(c, hay, 'h')
+            a2 = [pinned(c, a, 'p') if isinstance(a, str) else a for a in args]
+            if not hay and name in ('splitlines', 'split', 'rsplit', 'isspace'):
+                box.append(getattr(hay, name)(*args))   # the empty text is a plain str in the engine
+                return
+            box.append(low(bm.str_method(I, recv, name, a2, {})))
+        res = explore.explore(t4)
+        want = getattr(hay, name)(*args)
+        if [r.status for r in res if r.status != 'infeasible'] != ['ok'] or box[-1:] != [want]:
+            fails.append('str model %r.%s%r: engine %r, CPython %r (%r)' % (hay, name, args, box[-1:], want,
+                                                                          [(r.status, r.detail) for r in res][:2]))
+    # the reference for str.replace written from its documentation agrees with str.replace
+    rexp = envr.clause_native['replace_expected']
+    for n in range(0, 5):
+        for t in itertools.product('ab', repeat=n):
+            t = ''.join(t)
+            for old_ in ('', 'a', 'ab', 'aa', 'ba'):
+                for new_ in ('', 'x', 'ab'):
+                    for cnt in (-1, 0, 1, 2, 7):
+                        if rexp(t, old_, new_, cnt) != t.replace(old_, new_, cnt):
+                            fails.append('replace_expected(%r, %r, %r, %r) differs from str.replace' % (t, old_, new_, cnt))
+    # the regex model agrees with re on fixed cases
+    import re as _re
+    from . import regex_model
+    for pat, text in ((r'^((?:fg_)?|(?:bg_))rgb\((\d+)\)$', 'bg_rgb(12)'), (r'a+b?', 'xaab'), (r'\s*(0x)?([0-9a-f]+)', ' 0x1f'),
+                      (r'[^;]+', 'ab;c'), (r'(a|ab)(c|bcd)', 'abcd')):
+        box = []
+
+        def t5(c):
+            mo = regex_model.re_search(I, c, [pat, pinned(c, text, 'r')], {})
+            box.append(None if mo is None else (mo.span, [low(mo.group(g)) if mo.group(g) is not None else None
+                                                          for g in range(1, mo.ngroups + 1)]))
+        explore.explore(t5)
+        m0 = _re.search(pat, text)
+        want = None if m0 is None else (m0.span(), list(m0.groups()))
+        if box[-1:] != [want]:
+            fails.append('regex model %r on %r: engine %r, re %r' % (pat, text, box[-1:], want))
     if fails:
-        for f in fails:
+        for f in fails[:20]:
             print('SELFTEST-FAIL', f)
         return 3
     print('selftest ok')
